@@ -281,6 +281,42 @@ def san_env(flv, logdir):
     return env
 
 
+_LIVE = set()
+_LIVE_LOCK = threading.Lock()
+
+
+try:
+    import ctypes
+    _LIBC = ctypes.CDLL('libc.so.6', use_errno=True)
+except Exception:
+    _LIBC = None
+
+
+def _pdeathsig():
+    # children die with the driver even when the driver is killed with SIGKILL (no orphaned workers spinning for hours)
+    if _LIBC is not None:
+        _LIBC.prctl(1, 9)
+
+
+def _kill_live(signum=None, frame=None):
+    with _LIVE_LOCK:
+        for q in list(_LIVE):
+            try:
+                q.kill()
+            except Exception:
+                pass
+    if signum is not None:
+        os._exit(2)
+
+
+def install_signal_handlers():
+    for sg in (signal.SIGTERM, signal.SIGINT, signal.SIGHUP):
+        try:
+            signal.signal(sg, _kill_live)
+        except Exception:
+            pass
+
+
 def run_worker(prop, flv, binp, seed, tier, a, b, workdir, timeout_idle, extra_args=()):
     """run cases [a,b); returns dict(events=[...], crashed_case=None|k, rc, stderr)"""
     os.makedirs(workdir, exist_ok=True)
@@ -289,7 +325,9 @@ def run_worker(prop, flv, binp, seed, tier, a, b, workdir, timeout_idle, extra_a
     cmd = [binp, '--prop', prop, '--seed', str(seed), '--from', str(a), '--to', str(b), '--tier', tier, '--tmpdir', workdir] + list(extra_args)
     env = san_env(flv, workdir)
     with open(outp, 'wb') as fo, open(errp, 'wb') as fe:
-        p = subprocess.Popen(cmd, stdout=fo, stderr=fe, env=env, cwd=workdir)
+        p = subprocess.Popen(cmd, stdout=fo, stderr=fe, env=env, cwd=workdir, preexec_fn=_pdeathsig)
+        with _LIVE_LOCK:
+            _LIVE.add(p)
         last_size, last_change = -1, time.time()
         killed = False
         while True:
@@ -305,6 +343,8 @@ def run_worker(prop, flv, binp, seed, tier, a, b, workdir, timeout_idle, extra_a
                     p.wait()
                     killed = True
                     break
+        with _LIVE_LOCK:
+            _LIVE.discard(p)
     events, open_case, done_upto = [], None, a
     with open(outp, 'r', errors='replace') as f:
         for line in f:
@@ -338,6 +378,7 @@ def main():
         print(__doc__)
         return 0
     cmd = args[0]
+    install_signal_handlers()
     opts = dict(tier=os.environ.get('VERIF_TIER', 'quick'), seed=int(os.environ.get('VERIF_SEED', '0') or 0), jobs=NCPU, replay=None,
                 scale=float(os.environ.get('VERIF_SCALE', '1')))
     i = 1
